@@ -287,6 +287,10 @@ def setup_tf():
     """Import-time shim for the pinned environment; call before importing tf_pwa."""
     os.environ.setdefault("TF_CPP_MIN_LOG_LEVEL", "3")
     os.environ.setdefault("CUDA_VISIBLE_DEVICES", "")
+    if os.environ.get("VERIF_REPO"):
+        # development aid: run the machinery against a scratch worktree of the repository
+        # (registered checks never set it: they use /repo through the editable install)
+        sys.path.insert(0, os.environ["VERIF_REPO"])
     import numpy
     if not hasattr(numpy, "Inf"):
         numpy.Inf = numpy.inf
